@@ -34,6 +34,7 @@ ConvOK(e) ==
 LifeOK(e) ==
     /\ ~e.panic
     /\ e.reread_same_handle /\ e.reread_fresh_handle        \* ReadsSeeFile: mutating a scanned slice changes no later read
+    /\ e.all_rows_after_mutate                              \* ... of ANY row or column (the slice's whole capacity is the caller's)
     /\ e.string_after_mutate /\ e.other_slice_after_mutate  \* Independent: scanned values do not share memory
     /\ e.after_close /\ e.after_overwrite                   \* ... and outlive the transaction, the handle and the file
     /\ e.kept_after_rescan                                   \* ... and a later Scan into the same variable
